@@ -105,6 +105,11 @@ def gen(rng, tier):
             elif k < 0.86:
                 # an emit with a callback to a room the offender is in too
                 burst.append(['room_cb', '/', 'Q%d' % tok])
+            elif k < 0.865 and not cfg['msgpack']:
+                # a complete binary event whose placeholder refers to an
+                # attachment that does not exist (or is no index at all)
+                burst.append(['off_bad_ph', 'OB%d' % tok,
+                              rng.choice([7, 1, '0', 2.5, None, [0], {}])])
             elif k < 0.88:
                 # an emit with a callback to the OFFENDER; the callback
                 # relays the answer to a bystander (and takes a moment);
@@ -376,7 +381,7 @@ def _run(case, cfg, w):
             base_mem = tracemalloc.get_traced_memory()[0]
         for o in burst:
             k = o[0]
-            if k == 'off_reopen' or k == 'relay_cb':
+            if k in ('off_reopen', 'relay_cb', 'off_bad_ph'):
                 # (relay_cb: the offender starts from a clean transport, so
                 # that its two ACKs are not swallowed as attachments of
                 # something it left half-sent)
@@ -450,6 +455,24 @@ def _run(case, cfg, w):
                 for b in range(nby):
                     expected_rx[b].append(('EVENT', ns, 'ANYID', trepr(
                         ['q', tag])))
+            elif k == 'off_bad_ph':
+                _, tok2, num = o
+                import json as _json
+                n_enter1 = len(w.rec.of('h_enter'))
+                hdr = '51-' + _json.dumps(
+                    ['ev', tok2, {'_placeholder': True, 'num': num}])
+                off.send_frames([hdr, b'x'])
+                w.settle()
+                w.rec.count('fault.illegal_attachment_reference')
+                bad = [e for e in w.rec.of('h_enter')[n_enter1:]
+                       if tok2 in [a for a in e['args']
+                                   if isinstance(a, str)]]
+                if bad:
+                    v.add('illegal_attachment_reference_reached_handler',
+                          'binary event %s + 1 attachment invoked %s with %s'
+                          % (hdr, bad[0]['label'], trepr(bad[0]['args'])))
+                rejected_only = False
+                tainted[0] = True
             elif k == 'relay_cb':
                 _, b, tag, one_payload = o
                 osid = sc.sid('off', '/')
